@@ -22,6 +22,7 @@ HARNESS_MODULES = {
     'C04': ['framing:shards_c04'],
     'C05': ['c05_canonical'],
     'C06': ['c06_tls_layout'],
+    'C09': ['c09_apps'],
     'C10': ['c10_codes'],
     'C11': ['c11_prims'],
     'C12': ['c12_vectors'],
